@@ -14,6 +14,7 @@ import (
 	"mime"
 	"strconv"
 	"strings"
+	"sync/atomic"
 	"time"
 
 	"github.com/la5nta/wl2k-go/transport"
@@ -445,6 +446,11 @@ func (s *Session) writeCompressed(rw io.ReadWriter, p *Proposal) (err error) {
 
 	buffer := bytes.NewBuffer(p.compressedData[p.offset:])
 
+	// Number of bytes left in buffer. The buffer itself must only be touched by this goroutine,
+	// the status reporting goroutine below reads this counter instead.
+	var remaining atomic.Int64
+	remaining.Store(int64(buffer.Len()))
+
 	// Update Status of message transfer every 250ms
 	statusTicker := time.NewTicker(250 * time.Millisecond)
 	statusDone := make(chan struct{})
@@ -452,7 +458,7 @@ func (s *Session) writeCompressed(rw io.ReadWriter, p *Proposal) (err error) {
 		for {
 			select {
 			case <-statusTicker.C:
-				if s.statusUpdater == nil || buffer == nil {
+				if s.statusUpdater == nil {
 					continue
 				}
 
@@ -462,7 +468,7 @@ func (s *Session) writeCompressed(rw io.ReadWriter, p *Proposal) (err error) {
 					txBufLen = b.TxBufferLen()
 				}
 
-				transferred := p.compressedSize - buffer.Len() - txBufLen
+				transferred := p.compressedSize - int(remaining.Load()) - txBufLen
 				if transferred < 0 {
 					transferred = 0
 				}
@@ -478,7 +484,7 @@ func (s *Session) writeCompressed(rw io.ReadWriter, p *Proposal) (err error) {
 				if s.statusUpdater != nil {
 					s.statusUpdater.UpdateStatus(Status{
 						Sending:          p,
-						BytesTransferred: p.compressedSize - buffer.Len(),
+						BytesTransferred: p.compressedSize - int(remaining.Load()),
 						BytesTotal:       p.compressedSize,
 						Done:             true,
 					})
@@ -511,6 +517,7 @@ func (s *Session) writeCompressed(rw io.ReadWriter, p *Proposal) (err error) {
 		if err = writer.Flush(); err != nil {
 			return err
 		}
+		remaining.Store(int64(buffer.Len()))
 	}
 
 	// Checksum
@@ -594,6 +601,10 @@ func (s *Session) readCompressed(rw io.ReadWriter, p *Proposal) (err error) {
 		s.log.Println("GZIP_EXPERIMENT:", "Receiving gzip compressed message.")
 	}
 
+	// Number of bytes in buf. The buffer itself must only be touched by this goroutine,
+	// the status reporting goroutine below reads this counter instead.
+	var received atomic.Int64
+
 	statusUpdate := make(chan struct{})
 	go func() {
 		for {
@@ -601,7 +612,7 @@ func (s *Session) readCompressed(rw io.ReadWriter, p *Proposal) (err error) {
 			if s.statusUpdater != nil {
 				s.statusUpdater.UpdateStatus(Status{
 					Receiving:        p,
-					BytesTransferred: buf.Len(),
+					BytesTransferred: int(received.Load()),
 					BytesTotal:       p.compressedSize,
 					Done:             !ok,
 				})
@@ -611,8 +622,9 @@ func (s *Session) readCompressed(rw io.ReadWriter, p *Proposal) (err error) {
 			}
 		}
 	}()
-	defer func() { close(statusUpdate) }()
+	defer func() { received.Store(int64(buf.Len())); close(statusUpdate) }()
 	updateStatus := func() {
+		received.Store(int64(buf.Len()))
 		select {
 		case statusUpdate <- struct{}{}:
 		default:
